@@ -181,17 +181,35 @@ class FlpAdapter(SelAdapter):
             return [self._f32(rng.choice([0.0, 0.125, 1.0, math.sqrt(2), 3.5, 64.0])) for _ in range(n)]
         return [float(f)] * n
 
+    @staticmethod
+    def _euclid_check(locs, D):
+        """`orig_distances` (float32, from the repo's `get_distance_matrix`) against the Euclidean distance of the
+        float32 coordinates computed in double precision: within 4 float32 ulps, diagonal exactly 0, symmetric.
+        Returns None or a description of the first offending entry."""
+        import math
+
+        n = len(locs)
+        for a in range(n):
+            if D[a][a] != 0.0:
+                return {"entry": [a, a], "real": D[a][a], "true": 0.0, "what": "non-zero diagonal"}
+            for b in range(n):
+                t = math.hypot(locs[a][0] - locs[b][0], locs[a][1] - locs[b][1])
+                if abs(D[a][b] - t) > 4 * 2.0 ** -23 * max(t, 2.0 ** -100):
+                    return {"entry": [a, b], "real": D[a][b], "true": t, "locs": [locs[a], locs[b]],
+                            "what": "not the Euclidean distance of the two points (beyond 4 ulp)"}
+        return None
+
     def _inst(self, rng, n, q, kind):
         if kind == "geom":
             # integral point set, scaled by a power of two (distances stay exact) and shifted out of the unit box
             pts = geom.gen_points(rng, n)
             k = rng.choice([1, 1, 4, 4, 2, 8, 0.25])
-            sx, sy = rng.choice([(0, 0), (0, 0), (3, -2), (-7, 5), (100, 100), (-1, -1)])
+            sx, sy = rng.choice([(0, 0), (0, 0), (3, -2), (-7, 5), (10, 10), (100, 100), (1000, 1000), (1000, -1000), (-1, -1)])
             Dg = geom.dist_matrix(pts)
             per = int(GEN_UNIT * k) // geom.GRID
             D = [[d * per for d in row] for row in Dg]
             inst = {"kind": kind, "n": n, "q": q, "D": D, "unit": GEN_UNIT, "exact": True, "scale": k, "shift": (sx, sy),
-                    "locs_f": [[sx + k * x / geom.GRID, sy + k * y / geom.GRID] for (x, y) in pts]}
+                    "pts": pts, "per": per, "locs_f": [[sx + k * x / geom.GRID, sy + k * y / geom.GRID] for (x, y) in pts]}
         elif kind == "matrix":
             # arbitrary asymmetric integer matrix, many ties, non-zero diagonal allowed; small and large magnitudes
             hi = rng.choice([2, 4, 9, 64])
@@ -206,9 +224,11 @@ class FlpAdapter(SelAdapter):
         else:  # "gen": the repo's generator, default and non-default boxes / distributions
             from rl4co.envs.graph.flp.generator import FLPGenerator
 
-            variant = rng.choice(["default", "default", "box(-2,3)", "box(10,12)", "box(0,.25)", "normal(.5,.3)", "normal(0,2)"])
+            variant = rng.choice(["default", "default", "box(-2,3)", "box(10,12)", "box(0,.25)", "normal(.5,.3)", "normal(0,2)",
+                                  "box(10,11)", "box(100,101)", "box(1000,1001)"])
             kw = {"box(-2,3)": dict(min_loc=-2.0, max_loc=3.0), "box(10,12)": dict(min_loc=10.0, max_loc=12.0),
-                  "box(0,.25)": dict(min_loc=0.0, max_loc=0.25),
+                  "box(0,.25)": dict(min_loc=0.0, max_loc=0.25), "box(10,11)": dict(min_loc=10.0, max_loc=11.0),
+                  "box(100,101)": dict(min_loc=100.0, max_loc=101.0), "box(1000,1001)": dict(min_loc=1000.0, max_loc=1001.0),
                   "normal(.5,.3)": dict(loc_distribution="normal", loc_mean=0.5, loc_std=0.3),
                   "normal(0,2)": dict(loc_distribution="normal", loc_mean=0.0, loc_std=2.0)}.get(variant, {})
             g = FLPGenerator(num_loc=n, to_choose=q, **kw)
@@ -219,6 +239,7 @@ class FlpAdapter(SelAdapter):
                     "locs_f": td["locs"][0].tolist(), "D_f": td["orig_distances"][0].tolist(),
                     "d0_f": td["distances"][0].tolist()}
             inst["d0"] = [to_ticks(v, GEN_UNIT) for v in inst["d0_f"]]
+            inst["dm_bad"] = self._euclid_check(inst["locs_f"], inst["D_f"])
             return inst
         inst["d0_f"] = self._filler(rng, n)
         inst["d0"] = [to_ticks(v, GEN_UNIT) for v in inst["d0_f"]]
@@ -229,12 +250,19 @@ class FlpAdapter(SelAdapter):
             [2, 3, 5, 8] if tier == "quick" else [1, 2, 3, 5, 8, 13, 20])
         n = rng.choice(sizes)
         q0 = rng.choice([1, n, max(1, n // 2), rng.randint(1, n)])
+        big = (not tiny) and rng.random() < (0.2 if tier == "quick" else 0.15)
+        if big:
+            # the generator's default size class: more than 25 locations (torch kernels switch algorithms there)
+            n = rng.choice([26, 40, 100])
+            q0 = rng.choice([1, 2, 3, 10])
         insts = []
         # `to_choose` as the generator emits it ([B]) or as its docstring documents it ([B,1])
         qshape = rng.choice(["[B]", "[B]", "[B]", "[B,1]"])
         for r in range(B):
-            q = rng.randint(1, n) if mixed else q0
+            q = rng.randint(1, min(n, 6) if big else n) if mixed else q0
             kind = rng.choice(["geom", "geom", "matrix", "matrix", "gen", "gen"])
+            if big and kind == "matrix":
+                kind = "geom"
             if kind == "gen" and mixed:
                 kind = "matrix"  # the bundled generator cannot produce rows with different quotas
             inst = self._inst(rng, n, q, kind)
@@ -258,9 +286,19 @@ class FlpAdapter(SelAdapter):
             if i["kind"] == "geom":
                 # the distance matrix is computed from the coordinates by the repo's own routine, as the generator does
                 real = get_distance_matrix(torch.tensor([i["locs_f"]], dtype=torch.float32))[0].tolist()
-                if real != exact:  # coordinate→distance glue not exact on this instance: hand over the matrix
-                    i["glue_inexact"] = True
-                    real = exact
+                try:
+                    i["dm_real"] = [to_ticks(v, u) for row in real for v in row]
+                except ValueError:
+                    i["dm_real"] = None
+                if real != exact:
+                    # on the integral grid every difference, square, sum and root is exact in float32: a mismatch is
+                    # a wrong distance matrix (reported by `report_distance_matrix`); the REAL matrix is kept so that
+                    # reward and bookkeeping are judged against the exact Euclidean Spec values as well
+                    bad = next((a, b) for a in range(len(real)) for b in range(len(real)) if real[a][b] != exact[a][b])
+                    i["dm_bad"] = {"entry": list(bad), "real": real[bad[0]][bad[1]], "true": exact[bad[0]][bad[1]],
+                                   "locs": [i["locs_f"][bad[0]], i["locs_f"][bad[1]]],
+                                   "what": "not the (exactly representable) Euclidean distance" if bad[0] != bad[1]
+                                   else "non-zero diagonal"}
                 dm.append(real)
             else:
                 dm.append(exact)
@@ -375,6 +413,23 @@ class McpAdapter(SelAdapter):
         return {"kind": f"gen:w{wr[0]}-{wr[1]}", "ns": ns, "ni": ni, "ms": len(mem[0]), "q": int(td["n_sets_to_choose"][0, 0]),
                 "mem": mem, "w": w, "unit": 1}
 
+    def _gen_batch(self, rng, B, ns, ni, q, big):
+        from rl4co.envs.graph.mcp.generator import MCPGenerator
+
+        lo, hi = (5, 15) if big else (1, max(2, min(4, ni)))
+        try:
+            g = MCPGenerator(num_items=ni, num_sets=ns, min_size=lo, max_size=hi, n_sets_to_choose=q)
+            torch.manual_seed(rng.randrange(1 << 30))
+            td = g(batch_size=[B])
+        except Exception:
+            return None
+        out = []
+        for r in range(B):
+            mem = [[int(v) for v in row] for row in td["membership"][r].tolist()]
+            out.append({"kind": f"genbatch:{lo}-{hi}", "ns": ns, "ni": ni, "ms": len(mem[0]), "q": int(td["n_sets_to_choose"][r, 0]),
+                        "mem": mem, "w": [int(v) for v in td["weights"][r].tolist()], "unit": 1, "qshape": "[B,1]f"})
+        return out
+
     def gen_batch(self, rng, B, tier, mixed, tiny=False, **kw):
         sizes = ([2, 3, 4, 5] if tier == "quick" else [2, 3, 4, 5, 6, 7, 8]) if tiny else (
             [2, 3, 5, 8] if tier == "quick" else [1, 2, 3, 5, 8, 13, 20])
@@ -382,11 +437,24 @@ class McpAdapter(SelAdapter):
         ni = rng.choice([1, 3, 5, 9] if tier == "quick" or tiny else [1, 3, 5, 9, 20])
         ms = rng.choice([1, 2, 3, 4, ni, ni + 2])
         q0 = rng.choice([1, ns, max(1, ns // 2), rng.randint(1, ns)])
+        big = (not tiny) and rng.random() < (0.2 if tier == "quick" else 0.15)
+        if big:
+            # the generator's default size class: up to 100 sets, 200 items, sets of 5..15 items
+            ns = rng.choice([26, 40, 100])
+            ni = rng.choice([50, 200])
+            ms = rng.choice([5, 15])
+            q0 = rng.choice([1, 3, 10])
+        if not mixed and not tiny and rng.random() < 0.15:
+            # a whole batch from ONE call of the bundled generator with min_size < max_size (total since upstream
+            # fix 202be23): the membership width is the batch-wide maximum of the sampled sizes
+            b = self._gen_batch(rng, B, ns, ni, q0, big)
+            if b is not None:
+                return b
         # quota as the bundled generator emits it (float [B,1]) or as hand-supplied data may hold it (long [B])
         qshape = rng.choice(["[B,1]f", "[B,1]f", "[B,1]f", "[B]l"])
         insts = []
         for r in range(B):
-            q = rng.randint(1, ns) if mixed else q0
+            q = rng.randint(1, min(ns, 6) if big else ns) if mixed else q0
             kind = rng.choice(["random", "scattered", "scattered", "extreme", "extreme", "gen"])
             if kind == "gen" and not mixed:
                 try:
@@ -493,7 +561,7 @@ class DppAdapter(SelAdapter):
         return self._envs[key]
 
     def gen_batch(self, rng, B, tier, mixed, tiny=False, unmasked_ok=False, **kw):
-        size = rng.choice([2, 3] if tiny else ([2, 3, 4, 5] if tier == "quick" else [2, 3, 4, 5, 7, 10]))
+        size = rng.choice([2, 3] if tiny else ([2, 3, 4, 5, 10] if tier == "quick" else [2, 3, 4, 5, 7, 10]))
         N = size * size
         # MDPP generator: 1 cell for the legacy single probe + up to pmax-1 probes + up to kmax-1 keep-outs are
         # cleared, so at least N - pmax - kmax + 1 cells stay free (DPP: N - kmax); the quota stays within that
@@ -623,6 +691,34 @@ def compare_row(ctx, ad: SelAdapter, inst, tr: Trace, r: int, reply: str, what: 
     return f
 
 
+def report_distance_matrix(ctx, ad, insts: List[dict]) -> None:
+    """FLP: the instance field `orig_distances` must hold the Euclidean distances of `locs` (zero diagonal).  It is
+    produced by the repo's `get_distance_matrix` (the generator's own call, or the same call made by the harness on
+    integral point sets); `dm_bad` was recorded when the instance was built."""
+    for inst in insts:
+        if inst.get("pts") is not None and not inst.get("dm_model_checked"):
+            # the Lean model of `get_distance_matrix` (`Flp.distOf` on the integer grid) against the matrix the REAL
+            # `get_distance_matrix` returned for these coordinates (kept in `dm_real` by `to_td`)
+            inst["dm_model_checked"] = True
+            pts = inst["pts"]
+            f = parse_fields(ctx.driver.ask(f"flp.dm {inst['n']} | " + " ".join(str(x) for x, _ in pts) + " | "
+                                            + " ".join(str(y) for _, y in pts)))
+            model = [int(v) * inst["per"] for v in f.get("dm", "").split(",") if v != ""]
+            ctx.count(f"{ad.name}.distance-matrix-model-checks")
+            real = inst.get("dm_real")
+            if real is not None and not inst.get("dm_bad") and model != real:
+                k = next(k for k in range(len(real)) if k >= len(model) or model[k] != real[k])
+                ctx.disagreement(f"{ad.name}: model of get_distance_matrix differs",
+                                 {"n": inst["n"], "entry": [k // inst["n"], k % inst["n"]], "real": real[k],
+                                  "model": model[k] if k < len(model) else None})
+        b = inst.get("dm_bad")
+        if b:
+            ctx.violation(f"{ad.name}:orig-distances-not-euclidean",
+                          f"`orig_distances[{b['entry'][0]}][{b['entry'][1]}]` = {b['real']!r}, true distance {b['true']!r}: {b['what']} "
+                          f"(n = {inst['n']}, kind {inst['kind']})",
+                          {"n": inst["n"], "kind": inst["kind"], "shift": inst.get("shift"), "scale": inst.get("scale"), **b})
+
+
 def first_done(d: List[int]) -> Optional[int]:
     return d.index(1) if 1 in d else None
 
@@ -658,6 +754,7 @@ def check_selection(ctx, ad: SelAdapter, quick=160, thorough=2500):
         insts = ad.gen_batch(ctx.rng, B, ctx.tier, mixed, unmasked_ok=True)
         env = ad.env_for(insts)
         tr = run_sel(ad, env, insts, chooser(ctx.rng))
+        report_distance_matrix(ctx, ad, insts)
         replies = ask_many(ctx, [ad.line(insts[r], tr.actions[r]) for r in range(B)])
         bk = batch_kind(ad, insts)
         ctx.count(f"{ad.name}.batches.{bk}")
@@ -676,8 +773,8 @@ def check_selection(ctx, ad: SelAdapter, quick=160, thorough=2500):
             ctx.count(f"{ad.name}.kind={inst['kind']}")
             ctx.count(f"{ad.name}.n={ad.n_actions(inst)}")
             ctx.count(f"{ad.name}.quota={'n' if inst['q'] == ad.n_actions(inst) else ('1' if inst['q'] == 1 else 'mid')}")
-            if inst.get("glue_inexact"):
-                ctx.count(f"{ad.name}.geom-glue-inexact")
+            if ad.name == "flp" and ad.n_actions(inst) > 25:
+                ctx.count(f"{ad.name}.more than 25 locations")
             if "qshape" in inst:
                 ctx.count(f"{ad.name}.quota-tensor={inst['qshape']}")
             if "d0" in inst:
@@ -835,6 +932,7 @@ def check_termination(ctx, ad: SelAdapter, quick=160, thorough=2500):
         env = ad.env_for(insts)
         try:
             tr = run_sel(ad, env, insts, chooser(ctx.rng))
+            report_distance_matrix(ctx, ad, insts)
         except RuntimeError as e:
             ctx.violation(f"{ad.name}:no-termination", f"real env: {e}", {"insts": insts})
             n_rows += B
@@ -884,6 +982,7 @@ def check_reward(ctx, ad: SelAdapter, quick=160, thorough=2500):
         insts = ad.gen_batch(ctx.rng, B, ctx.tier, mixed)
         env = ad.env_for(insts)
         tr = run_sel(ad, env, insts, chooser(ctx.rng))
+        report_distance_matrix(ctx, ad, insts)
         acts = torch.tensor(tr.actions, dtype=torch.long)
         try:
             real = ad.reward_ticks(env, tr.td, acts, insts)
@@ -931,6 +1030,7 @@ def check_batch_independence(ctx, ad: SelAdapter, quick=40, thorough=500):
             insts[ctx.rng.randrange(1, B)] = dict(insts[0])
         env = ad.env_for(insts)
         tr = run_sel(ad, env, insts, chooser(ctx.rng))
+        report_distance_matrix(ctx, ad, insts)
         if tr.empty:
             ctx.violation(f"{ad.name}:dead-end", "a row is offered no action while the batch is still running",
                           {"inst": insts[tr.empty[0][0]], "step": tr.empty[0][1]})
@@ -1260,6 +1360,33 @@ def _register():
                 th += [Theorem(P + "batch_quota_counterexample", "proved",
                                "¬ batch_quota_statement: in the model of the real loop a row next to a larger quota selects more than its quota — known finding"),
                        Theorem(P + "batch_equal_quota", "partial", "the batch statement for equal quotas (all the bundled generator emits)")]
+        if prop == "C03" and sel:
+            mods.append("Rl4co.Props.C03.SelectSpec")
+            if ns == "Flp":
+                th += [Theorem(P + "distOf_sq", "proved", "model of get_distance_matrix: on an integral pair the entry is the exact Euclidean distance"),
+                       Theorem(P + "distOf_self", "proved", "… zero diagonal"),
+                       Theorem(P + "distOf_symm", "proved", "… symmetric"),
+                       Theorem(P + "distOf_translate", "proved", "… unchanged when the point set is shifted (boxes away from the origin)"),
+                       Theorem(P + "geom_reward", "proved", "C03 for instances given by coordinates: reward = −Σ_j min_c Euclid(c, j)"),
+                       Theorem(P + "objective_translate", "proved", "Spec sanity: the objective is translation invariant"),
+                       Theorem(P + "objective_mono", "proved", "Spec sanity: one more facility never increases the objective"),
+                       Theorem(P + "objective_nonneg", "proved", "Spec sanity: non-negative for non-negative distances"),
+                       Theorem(P + "objective_all_zero", "proved", "Spec sanity: opening every location costs 0 (zero diagonal)"),
+                       Theorem(P + "feasible_exists", "proved", "Spec sanity: every WF instance has a feasible selection")]
+            else:
+                th += [Theorem(P + "objective_mono", "proved", "Spec sanity: with weights ≥ 0 one more set never decreases the covered weight"),
+                       Theorem(P + "objective_le_total", "proved", "Spec sanity: covered weight ≤ total weight"),
+                       Theorem(P + "objective_nil", "proved", "Spec sanity: nothing chosen, nothing covered"),
+                       Theorem(P + "objective_perm", "proved", "Spec sanity: depends only on the set of chosen sets"),
+                       Theorem(P + "feasible_exists", "proved", "Spec sanity: every WF instance has a feasible selection")]
+            th.append(Theorem(P + "batch_row_outcome", "proved",
+                              "∀ batch (any quotas) ∀ row: T distinct selections, reward = ∓objective of ALL of them (what a padded row ends with)"))
+        if prop == "C08" and ns == "Flp":
+            mods.append("Rl4co.Props.C03.SelectSpec")
+            th.append(Theorem(P + "geom_distances", "proved", "bookkeeping for coordinate instances: distances[j] = min_c Euclid(c, j), and 0 at every chosen facility"))
+        if prop == "C05" and not sel:
+            mods.append("Rl4co.Props.C03.SelectSpec")
+            th.append(Theorem(P + "feasible_exists_iff", "proved", "Spec sanity: a feasible placement exists ⇔ quota ≤ #cells offered and not a port"))
         if prop == "C05" and sel:
             mods += ["Rl4co.Props.C05.SelectOpt", "Rl4co.Props.C12.SelectStarts"]
             th += [Theorem(P + "best_reward_eq_optimum", "proved", "an episode attains Spec.optimum (brute force over all feasible selections) and none exceeds it"),
